@@ -572,3 +572,411 @@ Qed.
 
 End Sid.
 
+
+(* ------------------------------------------------------------------------------------------ *)
+(* Part D1: the typed invariant of a Request, relative to a base log [L0] of complete records:  *)
+(*          Request::poll_output / poll_input / record_boundary                                 *)
+(* ------------------------------------------------------------------------------------------ *)
+
+Lemma sparse_mini maxc p new dest : RI p -> bytes_ok (raw_bytes p) -> bytes_ok new ->
+  match sparse maxc p new dest with
+  | StOk p' _ | StErr p' _ _ => RI p' /\ bytes_ok (raw_bytes p') /\ sreq p' = sreq p /\ text (r_id (sreq p)) p p'
+  | StPanic _ => True
+  end.
+Proof.
+  intros HRI Hraw Hnew. pose proof (sparse_typed maxc p new dest HRI Hraw Hnew) as T.
+  pose proof (sparse_sreq maxc p new dest) as Q.
+  destruct (sparse_refines maxc p new dest HRI) as [Ga Gb].
+  pose proof (aparse_facts maxc (abs p) new dest Hraw Hnew) as F. rewrite Ga in F.
+  destruct (sparse maxc p new dest) as [p' s|p' e s|n]; cbn [absres sparse_post] in *; [| |exact I];
+    destruct Gb as [R' _]; destruct F as (_ & _ & _ & F4 & _); (split; [exact R'|split; [exact F4|split; [exact Q|exact T]]]).
+Qed.
+
+Lemma tpw_wok offer w p w' : t_poll_write offer w = (p, w') -> world_ok w -> world_ok w'.
+Proof.
+  unfold t_poll_write. intros E Wok.
+  repeat match type of E with
+  | (if ?c then _ else _) = _ => destruct c
+  | (match ?x with _ => _ end) = _ => destruct x
+  end; injection E as <- <-; exact Wok.
+Qed.
+
+Lemma tpr_wok L w p w' : t_poll_read L w = (p, w') -> world_ok w ->
+  world_ok w' /\ (forall b, p = PReady (inl b) -> bytes_ok b).
+Proof.
+  intros E Wok. pose proof (ConnTotal.t_poll_read_spec L w) as TS. rewrite E in TS.
+  destruct p as [[b|k]| |].
+  - destruct TS as (S1 & Hb & _). split; [exact (ws_ok _ _ S1 Wok)|]. intros b' X. injection X as <-. exact (Hb Wok).
+  - destruct TS as (S1 & _). split; [exact (ws_ok _ _ S1 Wok)|]. intros b' X. discriminate X.
+  - destruct TS as (S1 & _). split; [exact (ws_ok _ _ S1 Wok)|]. intros b' X. discriminate X.
+  - destruct TS as (-> & _). split; [exact Wok|]. intros b' X. discriminate X.
+Qed.
+
+Lemma compress_text id p : text id p (compress p).
+Proof. apply text_same; reflexivity. Qed.
+
+Lemma consume_stream_text id p n : text id p (consume_stream p n).
+Proof. apply text_same; reflexivity. Qed.
+
+Lemma set_stream_text id p s p' : set_stream p s = SetOk p' -> text id p p'.
+Proof.
+  unfold set_stream. intros E.
+  repeat match type of E with
+         | context [if ?c then _ else _] => destruct c
+         | context [match ?x with _ => _ end] => destruct x
+         end; try discriminate E; injection E as <-; apply text_same; reflexivity.
+Qed.
+
+Section TConn.
+Variable maxc : N.
+Variable norm : bytes -> bytes.
+Variable id : N.
+Variable L0 : bytes.
+Hypothesis HL0 : recs L0.
+
+(* the log is the base followed by typed records [D], up to the parser's unsent output; with the output lock free [D] is typed *)
+Definition TFI (r : rstate) (w : world) : Prop :=
+  r_id (sreq (rsp r)) = id /\
+  exists D, wlog w = L0 ++ D /\ typed id (D ++ output_buffer (rsp r)) /\ (rlock r = false -> typed id D).
+
+Definition J (r : rstate) (w : world) : Prop :=
+  RI (rsp r) /\ bytes_ok (raw_bytes (rsp r)) /\ world_ok w /\ WI true w /\ TFI r w.
+
+Lemma TFI_FI r w : RI (rsp r) -> TFI r w -> FI r w.
+Proof.
+  intros (_ & _ & _ & _ & R5 & _) (_ & D & E & T1 & T2). unfold FI. split; [exact R5|]. rewrite E. split.
+  - rewrite <- app_assoc. apply recs_app; [exact HL0|apply T1].
+  - intros Hl. apply recs_app; [exact HL0|apply (T2 Hl)].
+Qed.
+
+Lemma TFI_text r w p' wr ab : RI (rsp r) -> TFI r w -> text id (rsp r) p' -> sreq p' = sreq (rsp r) ->
+  TFI (mkR p' wr (rlock r) ab) w.
+Proof.
+  intros R (Hid & D & E & T1 & T2) (E1 & o & E2 & To) Hq. unfold TFI. cbn [rsp rlock]. split; [rewrite Hq; exact Hid|].
+  exists D. split; [exact E|]. split; [|exact T2].
+  assert (Eo : output_buffer p' = output_buffer (rsp r) ++ o).
+  { unfold output_buffer. rewrite E1, E2. apply drop_app_le. apply R. }
+  rewrite Eo, app_assoc. apply typed_app; assumption.
+Qed.
+
+Lemma TFI_wlog r w w' : TFI r w -> wlog w' = wlog w -> TFI r w'.
+Proof. intros (Hid & D & E & T) Ew. split; [exact Hid|]. exists D. rewrite Ew. split; [exact E|exact T]. Qed.
+
+Lemma J_world r w w' : J r w -> world_ok w' -> WI true w' -> wlog w' = wlog w -> J r w'.
+Proof.
+  intros (R & B & _ & _ & T) Wok' W' Ew. split; [exact R|]. split; [exact B|]. split; [exact Wok'|]. split; [exact W'|].
+  apply (TFI_wlog r w w' T Ew).
+Qed.
+
+Lemma J_text r w p' wr ab : J r w -> RI p' -> bytes_ok (raw_bytes p') -> sreq p' = sreq (rsp r) -> text id (rsp r) p' ->
+  J (mkR p' wr (rlock r) ab) w.
+Proof.
+  intros (R & B & Wok & W & T) R' B' Hq X. split; [exact R'|]. split; [exact B'|]. split; [exact Wok|]. split; [exact W|].
+  apply TFI_text; assumption.
+Qed.
+
+Lemma J_id r w : J r w -> r_id (sreq (rsp r)) = id.
+Proof. intros (_ & _ & _ & _ & Hid & _). exact Hid. Qed.
+
+Lemma poll_output_J : forall fuel r w, J r w -> match poll_output fuel r w with (_, r', w') => J r' w' end.
+Proof.
+  induction fuel as [|f IH]; intros r w HJ; [exact HJ|].
+  cbn [poll_output]. destruct HJ as (R & B & Wok & W & Hid & D & E & T1 & T2).
+  destruct (output_buffer (rsp r)) as [|x o'] eqn:Eo.
+  - split; [exact R|]. split; [exact B|]. split; [exact Wok|]. split; [exact W|]. split; [exact Hid|].
+    exists D. cbn [rsp rlock]. rewrite Eo. split; [exact E|]. split; [exact T1|]. intros _. rewrite app_nil_r in T1. exact T1.
+  - destruct (t_poll_write (x :: o') w) as [p w1] eqn:ET. destruct (tpw_fr true _ w p w1 ET W) as [W1 C].
+    pose proof (tpw_wok _ _ _ _ ET Wok) as Wok1.
+    destruct p as [[n|k]| |]; try contradiction.
+    + destruct C as (L1 & Hn & Hn0). destruct (N.eqb_spec n 0) as [Hz|Hz]; [specialize (Hn0 Hz); discriminate Hn0|].
+      apply IH. destruct (sp_same_views _ _ (consume_output_same (rsp r) n)) as (_ & V2 & _ & _ & _ & V6).
+      split; [apply consume_output_RI; exact R|]. split; [cbn [rsp]; rewrite V2; exact B|]. split; [exact Wok1|].
+      split; [exact W1|]. split; [cbn [rsp]; rewrite V6; exact Hid|].
+      exists (D ++ take n (x :: o')). cbn [rsp rlock]. split; [rewrite L1, E, app_assoc; reflexivity|]. split; [|discriminate].
+      rewrite consume_output_buffer, Eo, <- app_assoc, take_drop. exact T1.
+    + split; [exact R|]. split; [exact B|]. split; [exact Wok1|]. split; [exact W1|]. split; [exact Hid|].
+      exists D. cbn [rsp rlock]. rewrite Eo, C. split; [exact E|]. split; [exact T1|discriminate].
+Qed.
+
+Lemma input_loop_J : forall fuel dest new r w, bytes_ok new -> J r w ->
+  match input_loop maxc fuel dest new r w with (_, r', w') => J r' w' end.
+Proof.
+  induction fuel as [|f IH]; intros dest new r w Hnew HJ; [exact HJ|].
+  cbn [input_loop]. pose proof HJ as (R & B & Wok & W & T).
+  pose proof (sparse_mini maxc (rsp r) new dest R B Hnew) as X. rewrite (J_id r w HJ) in X.
+  destruct (sparse maxc (rsp r) new dest) as [p1 s|p1 e s|n].
+  - destruct X as (R1 & B1 & Q1 & X1).
+    destruct (s_end s || (0 <? s_stream s)).
+    + match goal with |- context [if ?c then _ else _] => destruct c end; apply J_text; assumption.
+    + set (r2 := mkR (compress p1) (rwriteable r) (rlock r) (raborted r)).
+      destruct (compress_views p1 R1) as (Rc & _ & Bc & _).
+      assert (J2 : J r2 w).
+      { apply J_text; [exact HJ|exact Rc|rewrite Bc; exact B1|exact Q1|].
+        eapply text_trans; [exact X1|apply compress_text]. }
+      pose proof (poll_output_J (S f) r2 w J2) as PO.
+      destruct (poll_output (S f) r2 w) as [[po r3] w0].
+      destruct po as [[u|k]| |]; try exact PO.
+      destruct (t_poll_read (sinput_space (rsp r3)) w0) as [pr w1] eqn:ET.
+      pose proof PO as (_ & _ & Wok0 & W0 & _).
+      destruct (tpr_fr true _ _ _ _ ET W0) as [W1 L1]. destruct (tpr_wok _ _ _ _ ET Wok0) as [Wok1 Hb].
+      pose proof (J_world r3 w0 w1 PO Wok1 W1 L1) as J3.
+      destruct pr as [[b|k]| |]; try exact J3.
+      destruct b as [|y b']; [exact J3|]. apply IH; [apply Hb; reflexivity|exact J3].
+  - destruct X as (R1 & B1 & Q1 & X1). apply J_text; assumption.
+  - exact HJ.
+Qed.
+
+Lemma poll_input_J fuel dest r w : J r w -> match poll_input maxc fuel dest r w with (_, r', w') => J r' w' end.
+Proof.
+  intros HJ. unfold poll_input. cbv zeta.
+  assert (POLL : match (match poll_output fuel r w with
+                 | (PReady (inl _), r1, w1) => input_loop maxc fuel dest [] r1 w1
+                 | (PReady (inr k), r1, w1) => (PReady (inr k), r1, w1)
+                 | (PWake, r1, w1) => (PWake, r1, w1)
+                 | (PBlock, r1, w1) => (PBlock, r1, w1)
+                 end) with (_, r', w') => J r' w' end).
+  { pose proof (poll_output_J fuel r w HJ) as PO. destruct (poll_output fuel r w) as [[po r1] w1].
+    destruct po as [[u|k]| |]; try exact PO. apply input_loop_J; [constructor|exact PO]. }
+  destruct dest as [c|].
+  - destruct c as [|c'].
+    + destruct (stream_buffer (rsp r)); exact HJ.
+    + destruct (stream_buffer (rsp r)) as [|x sb']; [exact POLL|].
+      pose proof HJ as (R & B & _).
+      match goal with |- context [consume_stream (rsp r) ?k] =>
+        destruct (consume_stream_views (rsp r) k R) as (V1 & V2 & _) end.
+      apply J_text; [exact HJ|exact V1|rewrite V2; exact B|reflexivity|apply consume_stream_text].
+  - destruct (stream_buffer (rsp r)) as [|x sb']; [exact POLL|exact HJ].
+Qed.
+
+Definition jpost {X} (x : res (X * rstate)) : Prop :=
+  match x with Ok (_, r') w' => J r' w' | Halt _ _ => True end.
+
+Lemma J_bump r w : J r w -> J r (w_bump w).
+Proof. intros HJ. pose proof HJ as (_ & _ & Wok & W & _). apply (J_world r w); [exact HJ|exact Wok|apply WI_bump; exact W|reflexivity]. Qed.
+
+Lemma await_input_J : forall fuel dest r w, J r w -> jpost (await_input maxc fuel dest r w).
+Proof.
+  induction fuel as [|f IH]; intros dest r w HJ; [exact I|].
+  cbn [await_input].
+  pose proof (poll_input_J (io_fuel w (len (buffer (rsp r)))) dest r w HJ) as PI.
+  destruct (poll_input maxc (io_fuel w (len (buffer (rsp r)))) dest r w) as [[p r1] w1].
+  pose proof PI as (_ & _ & _ & W1 & _).
+  destruct p as [x| |].
+  - exact PI.
+  - apply (on_wake_fr true false w1 _ jpost W1).
+    + intros Wb. apply IH. apply J_bump. exact PI.
+    + intros X. discriminate X.
+  - apply (on_block_fr true false w1 _ jpost W1).
+    + intros X. discriminate X.
+    + intros X. discriminate X.
+    + exact I.
+Qed.
+
+Lemma boundary_loop_J : forall fuel new r w, bytes_ok new -> J r w -> jpost (boundary_loop maxc fuel new r w).
+Proof.
+  induction fuel as [|f IH]; intros new r w Hnew HJ; [exact I|].
+  rewrite ConnTotal.boundary_loop_S. pose proof HJ as (R & B & Wok & W & T).
+  assert (AFTER : forall p', RI p' -> bytes_ok (raw_bytes p') -> sreq p' = sreq (rsp r) -> text id (rsp r) p' ->
+            jpost (ConnTotal.bl_after maxc f r w p')).
+  { intros p' R1 B1 Q1 X1. unfold ConnTotal.bl_after. cbv zeta. destruct (is_record_boundary p').
+    { apply J_text; assumption. }
+    destruct (compress_views p' R1) as (Rc & _ & Bc & _).
+    assert (J2 : J (mkR (compress p') (rwriteable r) (rlock r) (raborted r)) w).
+    { apply J_text; [exact HJ|exact Rc|rewrite Bc; exact B1|exact Q1|].
+      eapply text_trans; [exact X1|apply compress_text]. }
+    pose proof (await_read_fr true (io_fuel w 0) false (sinput_space (compress p')) w W) as AR.
+    pose proof (await_read_io false (sinput_space (compress p')) w 0) as AI.
+    destruct (await_read (io_fuel w 0) false (sinput_space (compress p')) w) as [[b|k] w1|o w1]; [| |exact I].
+    - destruct AR as [W1 L1]. destruct AI as (S1 & Hb & _).
+      pose proof (J_world _ w w1 J2 (ws_ok _ _ S1 Wok) W1 L1) as J3.
+      destruct b as [|x b']; [exact J3|]. apply IH; [exact (Hb Wok)|exact J3].
+    - destruct AR as [W1 L1]. destruct AI as (S1 & _).
+      exact (J_world _ w w1 J2 (ws_ok _ _ S1 Wok) W1 L1). }
+  pose proof (sparse_mini maxc (rsp r) new None R B Hnew) as X. rewrite (J_id r w HJ) in X.
+  destruct (sparse maxc (rsp r) new None) as [p' s|p' e s|n]; [| |exact I].
+  - destruct X as (R1 & B1 & Q1 & X1). apply AFTER; assumption.
+  - destruct X as (R1 & B1 & Q1 & X1).
+    destruct e; try (apply AFTER; assumption); (apply J_text; assumption).
+Qed.
+
+Lemma record_boundary_J r w : J r w -> jpost (record_boundary maxc r w).
+Proof.
+  intros HJ. unfold record_boundary. destruct (is_record_boundary (rsp r)); [exact HJ|].
+  apply boundary_loop_J; [constructor|exact HJ].
+Qed.
+
+(* ------------------------------------------------------------------------------------------ *)
+(* Part D2: handlers and Request::close.  Between the operations of a handler that awaits its    *)
+(* reads the output lock is free (FrameProofs.HI in mode [true]); the typed invariant rides along *)
+(* ------------------------------------------------------------------------------------------ *)
+Definition TI (r : rstate) (w : world) : Prop := HI true r w /\ TFI r w.
+
+Lemma TI_J r w : TI r w -> J r w.
+Proof.
+  intros ((G & Wok & W & F & LK) & T). destruct G as ((R & _ & B & _) & _).
+  split; [exact R|]. split; [exact B|]. split; [exact Wok|]. split; [exact W|exact T].
+Qed.
+
+Definition tpost {X} (x : res (X * rstate)) : Prop :=
+  match x with Ok (_, r') w' => TI r' w' | Halt _ _ => True end.
+
+Lemma await_input_TI dest r w : TI r w -> tpost (await_input maxc (io_fuel w 0) dest r w).
+Proof.
+  intros HT. pose proof (await_input_HI maxc norm true dest r w (proj1 HT)) as A.
+  pose proof (await_input_J (io_fuel w 0) dest r w (TI_J r w HT)) as Bj.
+  destruct (await_input maxc (io_fuel w 0) dest r w) as [[v r1] w1|o w1]; cbn [hpostF jpost tpost] in *; [|exact I].
+  split; [exact A|apply Bj].
+Qed.
+
+Lemma read_all_TI : forall fuel acc r w, TI r w -> tpost (read_all maxc fuel acc r w).
+Proof.
+  induction fuel as [|f IH]; intros acc r w H; [exact I|].
+  cbn [read_all]. pose proof (await_input_TI (Some 64) r w H) as A.
+  destruct (await_input maxc (io_fuel w 0) (Some 64) r w) as [[[[n b]|k] r'] w'|o w']; cbn [tpost] in A |- *.
+  - destruct (n =? 0); [exact A|apply IH; exact A].
+  - exact A.
+  - exact I.
+Qed.
+
+Lemma J_set r w s p' : rgood r -> J r w -> set_stream (rsp r) s = SetOk p' ->
+  J (mkR p' (rwriteable r) (rlock r) (raborted r)) w.
+Proof.
+  intros G HJ E.
+  assert (Hs : match s with Some x => is_input_stream x = true | None => True end).
+  { destruct s as [x|]; [|exact I]. apply (accepts_input _ _ _ (set_stream_ok_accepted _ _ _ E)). }
+  destruct (set_stream_views (rsp r) s p' (proj1 G) Hs E) as ((R' & _ & B' & _) & Q & _).
+  apply J_text; [exact HJ|exact R'|exact B'|exact Q|apply (set_stream_text id _ s); exact E].
+Qed.
+
+Lemma do_writeable_J r w : rgood r -> J r w -> jpost (do_writeable maxc r w).
+Proof.
+  intros G HJ. unfold do_writeable. destruct (rwriteable r); [exact HJ|].
+  match goal with |- context [set_stream ?p ?s] => destruct (set_stream p s) as [p'| |] eqn:ES end; [|exact I..].
+  pose proof (J_set r w _ p' G HJ ES) as J1.
+  match goal with |- context [await_input maxc ?fu ?d ?r0 w] =>
+    pose proof (await_input_J fu d r0 w J1) as H;
+    destruct (await_input maxc fu d r0 w) as [[[v|k] r'] w'|o w'] end; exact H.
+Qed.
+
+Lemma do_writeable_TI r w : TI r w -> tpost (do_writeable maxc r w).
+Proof.
+  intros HT. pose proof (do_writeable_HI maxc norm true r w (proj1 HT)) as A.
+  pose proof (do_writeable_J r w (proj1 (proj1 HT)) (TI_J r w HT)) as Bj.
+  destruct (do_writeable maxc r w) as [[v r1] w1|o w1]; cbn [hpostF jpost tpost] in *; [|exact I].
+  split; [exact A|apply Bj].
+Qed.
+
+Lemma TI_consume r w c : TI r w -> TI (mkR (consume_stream (rsp r) c) (rwriteable r) (rlock r) (raborted r)) w.
+Proof.
+  intros HT. split; [apply HI_consume; exact (proj1 HT)|].
+  pose proof (TI_J r w HT) as (R & _ & _ & _ & T). apply TFI_text; [exact R|exact T|apply consume_stream_text|reflexivity].
+Qed.
+
+Lemma TI_set r w s p' : TI r w -> set_stream (rsp r) (Some s) = SetOk p' ->
+  TI (mkR p' (rwriteable r) (rlock r) (raborted r)) w.
+Proof.
+  intros HT E. split; [apply (HI_set true r w s p' (proj1 HT) E)|].
+  pose proof (TI_J r w HT) as (R & _ & _ & _ & T).
+  apply TFI_text; [exact R|exact T|apply (set_stream_text id _ (Some s)); exact E|apply (set_stream_sreq _ _ _ E)].
+Qed.
+
+(* the scripts of the statement *)
+Inductive tscript : list N -> Prop :=
+| TS_nil : tscript []
+| TS_read n rest : tscript rest -> tscript (1 :: n :: rest)
+| TS_all rest : tscript rest -> tscript (2 :: rest)
+| TS_fill k rest : tscript rest -> tscript (3 :: k :: rest)
+| TS_set s rest : tscript rest -> tscript (4 :: s :: rest)
+| TS_wr rest : tscript rest -> tscript (5 :: rest)
+| TS_write s n rest : std_stream s -> tscript (drop n rest) -> tscript (6 :: s :: n :: rest)
+| TS_flush s rest : tscript rest -> tscript (7 :: s :: rest)
+| TS_exit d c rest : In d EXITSTATUS_VALUES -> tscript (8 :: d :: c :: rest)
+| TS_fail k rest : tscript (9 :: k :: rest)
+| TS_readq n rest : tscript rest -> tscript (10 :: n :: rest).
+
+Definition tres (x : res ((N * N + N) * rstate)) : Prop :=
+  match x with
+  | Ok (st, r') w' => TI r' w' /\ match st with inl (d, _) => In d EXITSTATUS_VALUES | inr _ => True end
+  | Halt _ _ => True
+  end.
+
+Lemma run_handler_TI script : tscript script -> forall f r w, TI r w -> tres (run_handler maxc f script r w).
+Proof.
+  induction 1 as [|n rest H IH|rest H IH|k rest H IH|s rest H IH|rest H IH|s n rest Hs H IH|s rest H IH|d c rest Hd|k rest
+                  |n rest H IH];
+    intros f r w HT; (destruct f as [|f]; [exact I|]); cbn [run_handler].
+  - (* end of script *) split; [exact HT|apply exit_complete_in].
+  - (* 1 n *)
+    pose proof (await_input_TI (Some n) r w HT) as A.
+    destruct (await_input maxc (io_fuel w 0) (Some n) r w) as [[[[c b]|k] r1] w1|o w1]; cbn [tpost] in A;
+      [apply IH; exact A|apply IH; exact A|exact I].
+  - (* 2 *)
+    match goal with |- context [read_all maxc ?fu [] r w] =>
+      pose proof (read_all_TI fu [] r w HT) as A; destruct (read_all maxc fu [] r w) as [[[k acc] r1] w1|o w1] end;
+      cbn [tpost] in A; [apply IH; exact A|exact I].
+  - (* 3 k *)
+    pose proof (await_input_TI None r w HT) as A.
+    destruct (await_input maxc (io_fuel w 0) None r w) as [[[[c b]|e] r1] w1|o w1]; cbn [tpost] in A; [| |exact I].
+    + apply IH. apply (TI_consume r1 w1 _ A).
+    + apply IH. exact A.
+  - (* 4 s *)
+    destruct (set_stream (rsp r) (Some s)) as [p'| |] eqn:E; [|exact I..].
+    apply IH. apply (TI_set r w s p' HT E).
+  - (* 5 *)
+    pose proof (do_writeable_TI r w HT) as A.
+    destruct (do_writeable maxc r w) as [[e r1] w1|o w1]; cbn [tpost] in A; [apply IH; exact A|exact I].
+  - (* 6 s n data *)
+    cbv zeta. destruct (negb (rwriteable r)); [apply IH; exact HT|].
+    destruct HT as ((G & Wok & W & F & LK) & T).
+    pose proof (LK eq_refl) as Elk. rewrite Elk. cbn [andb].
+    destruct (std_known s Hs) as [Hk Hne].
+    pose proof (wwa_fr true (N.to_nat (n / 65535) + 2) s (r_id (sreq (rsp r))) (take n rest) w W (proj2 (proj2 F) Elk) Hk) as WW.
+    pose proof (ConnWrites.writer_write_all_ok (N.to_nat (n / 65535) + 2) s (r_id (sreq (rsp r))) (take n rest) w) as WS.
+    destruct (writer_write_all (N.to_nat (n / 65535) + 2) s (r_id (sreq (rsp r))) (take n rest) w) as [[k|] w1|o w1];
+      cbn [wfr] in WW; [contradiction| |exact I].
+    destruct WW as [W1 L1]. destruct (WS w1 eq_refl) as (_ & _ & Hsegs & _).
+    apply IH. split.
+    + split; [exact G|]. split; [unfold world_ok; cbn [w_ev segs]; rewrite Hsegs; exact Wok|]. split; [exact W1|].
+      split; [|intros _; exact Elk].
+      apply (FI_write r w _ (stream_records s (r_id (sreq (rsp r))) (take n rest)) F Elk L1).
+      apply stream_records_recs. exact Hk.
+    + destruct T as (Hid & D & E & T1 & T2). split; [exact Hid|].
+      exists (D ++ stream_records s (r_id (sreq (rsp r))) (take n rest)).
+      split; [cbn [w_ev wlog]; rewrite L1, E, app_assoc; reflexivity|].
+      pose proof (T2 Elk) as TD. pose proof (typed_cancel id D _ (typed_recs _ _ TD) T1) as Tob.
+      assert (Tsr : typed id (stream_records s (r_id (sreq (rsp r))) (take n rest)))
+        by (apply stream_records_typed; assumption).
+      split; [rewrite <- app_assoc; apply typed_app; [exact TD|apply typed_app; assumption]|].
+      intros _. apply typed_app; assumption.
+  - (* 7 s *)
+    destruct (rwriteable r); [|apply IH; exact HT].
+    destruct (rlock r) eqn:Elk; [exact I|apply IH; exact HT].
+  - (* 8 d c *) split; [exact HT|exact Hd].
+  - (* 9 k *) split; [exact HT|exact I].
+  - (* 10 n *)
+    pose proof (await_input_TI (Some n) r w HT) as A.
+    destruct (await_input maxc (io_fuel w 0) (Some n) r w) as [[[[c b]|k] r1] w1|o w1]; cbn [tpost] in A;
+      [apply IH; exact A|split; [exact A|exact I]|exact I].
+Qed.
+
+(* Request::close, when it completed: everything it appended after the base log is typed records followed by the epilogue *)
+Lemma do_close_typed r d c w x w' : TI r w -> do_close maxc r d c w = Ok x w' -> (x = inr EK_Reset \/ exists rp, x = inl rp) ->
+  exists X app ps, typed id X /\ exit_to_end d c = Some (app, ps) /\
+    wlog w' = L0 ++ X ++
+      (if (match do_writeable maxc r w with Ok (_, r2) _ => rwriteable r2 | Halt _ _ => false end)
+       then hdr_encode RT_Stdout id 0 0 ++ hdr_encode RT_Stderr id 0 0 else []) ++ end_record app ps id.
+Proof.
+  intros HT E Hx. destruct (do_close_cases maxc r d c w x w' E) as (e & r1 & w1 & EW & [[He ECT]|(k & He & Hk & Hxk & Hw)]).
+  - pose proof (do_writeable_TI r w HT) as DW. rewrite EW in DW |- *. cbn [tpost] in DW.
+    destruct (close_tail_log_shape maxc r1 d c w1 x w' ECT Hx) as (p2 & r3 & w2 & ast & ps & S1 & S2 & S3 & S4 & S5).
+    cbv zeta in S5.
+    pose proof (J_set r1 w1 None p2 (proj1 (proj1 DW)) (TI_J r1 w1 DW) S1) as J2.
+    pose proof (record_boundary_J _ w1 J2) as RB. rewrite S2 in RB. cbn [jpost] in RB.
+    destruct RB as (_ & _ & _ & _ & Hid3 & D3 & E3 & T3 & _).
+    exists (D3 ++ output_buffer (rsp r3)), ast, ps. split; [exact T3|]. split; [exact S4|].
+    rewrite S5, E3, Hid3. destruct (rwriteable r1); rewrite <- !app_assoc; reflexivity.
+  - exfalso. pose proof (do_writeable_k maxc r w) as DW. rewrite EW in DW. destruct DW as [_ Nk].
+    destruct Hx as [Hx|[rp Hx]]; [|congruence]. apply Nk. congruence.
+Qed.
+
+End TConn.
